@@ -49,7 +49,8 @@ def get_default_parameters(search_space: vz.SearchSpace) -> vz.ParameterDict:
         builder.choose_value(pc.bounds[0])
       else:
         # TODO: Handle scaling properly.
-        midpoint = (pc.bounds[0] + pc.bounds[1]) / 2
+        # Halve before adding: the sum of two huge bounds can overflow.
+        midpoint = pc.bounds[0] / 2 + pc.bounds[1] / 2
         builder.choose_value(midpoint)
   return builder.parameters
 
